@@ -1,0 +1,126 @@
+//go:build verif
+
+package main
+
+import (
+	"encoding/json"
+	"fmt"
+	"math"
+
+	"github.com/ludo-technologies/pyscn/internal/analyzer"
+)
+
+// tedRef names one argument of a call: a tree of the request (index into
+// "trees") and a path from its root (list of child indices, empty = the root).
+// A missing/null reference is the nil tree.
+type tedRef struct {
+	T int   `json:"t"`
+	P []int `json:"p"`
+}
+
+// tedCall is one step of a history: "d" = ComputeDistance(a, b),
+// "sim" = ComputeSimilarity(a, b), "prep" = PrepareTreeForAPTED(a) (what the
+// clone detector does once per fragment when it is extracted).
+type tedCall struct {
+	F string  `json:"f"`
+	A *tedRef `json:"a"`
+	B *tedRef `json:"b"`
+}
+
+func init() {
+	// ted_seq: builds the trees of the request ONCE and then executes the given
+	// sequence of calls on ONE analyzer, every call naming its arguments as
+	// (tree, path to a subtree). The TreeNode objects are shared by all calls of
+	// the history, as the fragments of the clone detector are shared by all the
+	// pairs they take part in. Every result is returned, in order.
+	// The cost model is selected like in op "ted" (field "cost") or, when "base"
+	// is present, like in op "ted_w" (NewWeightedCostModel(wi, wd, wr, base)).
+	register("ted_seq", func(raw json.RawMessage) (interface{}, error) {
+		var req struct {
+			tedWReq
+			Cost  string     `json:"cost"`
+			Trees []*tedTree `json:"trees"`
+			Calls []tedCall  `json:"calls"`
+		}
+		if err := json.Unmarshal(raw, &req); err != nil {
+			return nil, err
+		}
+		var a *analyzer.APTEDAnalyzer
+		if req.Base != "" {
+			cm, err := req.costModel()
+			if err != nil {
+				return nil, err
+			}
+			a = analyzer.NewAPTEDAnalyzer(cm)
+		} else {
+			switch req.Cost {
+			case "default", "python", "weighted":
+			default:
+				return nil, fmt.Errorf("unknown cost model %q", req.Cost)
+			}
+			a = analyzer.VerifTedAnalyzer(req.Cost, req.IgnL, req.IgnI)
+		}
+		id := 0
+		roots := make([]*analyzer.TreeNode, len(req.Trees))
+		sizes := make([]int, len(req.Trees))
+		for i, t := range req.Trees {
+			roots[i] = buildTed(t, &id)
+			if roots[i] != nil {
+				sizes[i] = roots[i].Size()
+			}
+		}
+		resolve := func(r *tedRef) (*analyzer.TreeNode, error) {
+			if r == nil {
+				return nil, nil
+			}
+			if r.T < 0 || r.T >= len(roots) || roots[r.T] == nil {
+				return nil, fmt.Errorf("no tree %d", r.T)
+			}
+			n := roots[r.T]
+			for _, k := range r.P {
+				if k < 0 || k >= len(n.Children) {
+					return nil, fmt.Errorf("tree %d has no node at path %v", r.T, r.P)
+				}
+				n = n.Children[k]
+			}
+			return n, nil
+		}
+		one := func(c tedCall) (res map[string]interface{}) {
+			res = map[string]interface{}{}
+			defer func() {
+				if r := recover(); r != nil {
+					res = map[string]interface{}{"error": fmt.Sprintf("panic: %v", r)}
+				}
+			}()
+			x, err := resolve(c.A)
+			if err != nil {
+				return map[string]interface{}{"error": err.Error()}
+			}
+			y, err := resolve(c.B)
+			if err != nil {
+				return map[string]interface{}{"error": err.Error()}
+			}
+			var v float64
+			switch c.F {
+			case "d":
+				v = a.ComputeDistance(x, y)
+			case "sim":
+				v = a.ComputeSimilarity(x, y)
+			case "prep":
+				res["key_roots"] = len(analyzer.PrepareTreeForAPTED(x))
+			default:
+				return map[string]interface{}{"error": fmt.Sprintf("unknown call %q", c.F)}
+			}
+			if math.IsNaN(v) || math.IsInf(v, 0) {
+				return map[string]interface{}{"error": fmt.Sprintf("non-finite result %v", v)}
+			}
+			res["v"] = v
+			return res
+		}
+		results := make([]map[string]interface{}, len(req.Calls))
+		for i, c := range req.Calls {
+			results[i] = one(c)
+		}
+		return map[string]interface{}{"results": results, "sizes": sizes}, nil
+	})
+}
